@@ -12,7 +12,7 @@
    message (canonical encoding); [ed_abs] = what the accessors of the dump read back. *)
 From LibcoapV Require Import Base.Tactics Base.Bytes Wire.OptCodec Wire.OptCodecProofs Wire.Pdu
   Wire.PduProofs Wire.Build Edit.EdSpec Edit.EdBytes Edit.EdSpecProofs Edit.EdPatch
-  Edit.EdBytesProofs Edit.EdStart Edit.EdDup Edit.EdRefuted Edit.EdExample.
+  Edit.EdBytesProofs Edit.EdStart Edit.EdDup Edit.EdResize Edit.EdRefuted Edit.EdExample.
 Local Open Scope Z_scope.
 
 (* ---- refinement: bytes vs. abstract message ---- *)
@@ -192,6 +192,20 @@ Theorem C04_dup_refines : forall q mid' smax t drop_,
   Some (option_map ed_of_pdu (ed_dup q mid' smax t drop_)).
 Proof. exact ed_b_dup_refines. Qed.
 Print Assumptions C04_dup_refines.
+
+(* ---- coap_pdu_check_resize / coap_pdu_resize ---- *)
+
+(* with alloc_size <= max_size (or max_size = 0), which coap_pdu_init establishes: the doubling
+   loop terminates, the call succeeds exactly when [ed_fits] says (the only thing the byte-level
+   model uses), at least [size] bytes are then available, and the invariant is kept *)
+Theorem C04_check_resize_spec : forall alloc max size,
+  0 <= alloc -> 0 <= max -> (max = 0 \/ alloc <= max) -> 0 <= size < 2 ^ 64 ->
+  exists a',
+    ed_check_resize alloc max size = Some (ed_fits max size, a') /\
+    (ed_fits max size = true -> size <= a' /\ alloc <= a' /\ (max = 0 \/ a' <= max)) /\
+    (ed_fits max size = false -> a' = alloc).
+Proof. exact ed_check_resize_spec. Qed.
+Print Assumptions C04_check_resize_spec.
 
 (* ---- the defect found: coap_update_token as pinned (8-bit cast of e_token_length) ---- *)
 
